@@ -60,7 +60,9 @@ RULE = ("every Linux Process query reachable through psutil.Process (all of psut
         "cmdline[0], tty nodes) -- (count taken from a dry run of the model) x fault "
         "{vanish at k (whole directory; half-removed = only the entries below /proc/<pid>, quick: live kind), EACCES at k, EPERM at k (quick: every eighth k), for tree calls: another process (parent / child "
         "/ grandchild / listed pid) vanishes at k}; thorough adds every pair (deny at i, vanish at j>i). After every vanish "
-        "all OS-consulting queries are called again on the same object. A case is non-trivial when the fault fires "
+        "all OS-consulting queries are called again on the same object; two-call histories on ONE object ([call refused at k ; "
+        "the same call again without fault], [call refused at k ; as_dict()]; quick: sampled k, live kind) with the oracle on "
+        "both calls. A case is non-trivial when the fault fires "
         "(k below the number of accesses); distinct = distinct (kind, method, fault schedule).")
 TRUSTED = ["correspondence harness props/C03.py + props/_c03_world.py (fake procfs, access-counting fault shim over "
            "builtins.open/os.* and the per-process C calls) and pv/",
@@ -123,6 +125,12 @@ def coq_term(case):
     sc = script_of(case["m"], case.get("ord"))
     if sc is None:
         return "JL []"
+    if case.get("then"):
+        scs = [sc] + [script_of(m2, case.get("ord2") if m2.startswith("as_dict:") else case.get("ord")) for m2 in case["then"]]
+        if any(x is None for x in scs):
+            return "JL []"
+        den = "[" + "; ".join("%d%%nat" % k for k, _ in case.get("d", [])) + "]"
+        return "run_hist_case %s [%s] %d%%nat None false %s [] true true" % (LAYOUT, "; ".join(scs), KIND_NO[case["base"]], den)
     v = "None" if case.get("v") is None else "(Some %d%%nat)" % case["v"]
     den = "[" + "; ".join("%d%%nat" % k for k, _ in case.get("d", [])) + "]"
     ov = "[" + "; ".join("(%s, %d%%nat)" % (_g_str(p), k) for p, k in case.get("ov", [])) + "]"
@@ -133,6 +141,8 @@ def coq_term(case):
 def coq_struct(case, raw):
     if not raw:
         return {"model": None, "spec": None}
+    if case.get("then"):
+        return {"model": [raw[0], raw[1], raw[2], []], "spec": None}     # raw[0] = the list of outcomes
     return {"model": [raw[0], raw[1], raw[2], []], "spec": None, "model_allowed": raw[3]}
 
 
@@ -181,8 +191,12 @@ def _dry_counts(pairs):
         shutil.rmtree(scratch, ignore_errors=True)
 
 
+FULL_AS_DICT = [None]      # (method name, iteration order) of as_dict() over all attributes
+
+
 def gen_cases(rng, tier):
     ms = method_names()
+    FULL_AS_DICT[0] = next(((m, o) for m, o in ms if m.startswith("as_dict:") and o and len(o) > 20), None)
     pairs = [(b, m, o) for b in W.KINDS for m, o in ms]
     counts = _dry_counts([p for p in pairs if script_of(p[1], p[2]) is not None])
     cases = []
@@ -219,6 +233,21 @@ def gen_cases(rng, tier):
                     c = {"kind": "one", "cls": "VO", "base": b, "m": m, "v": None, "d": [], "ov": [[op, k]]}
                     if o:
                         c["ord"] = o
+                    cases.append(c)
+        # two-call histories on ONE object: [call with D at k ; the same call again] and [call with D at k ; as_dict()]
+        # (process_iter keeps its state in the module-level _pmap, not in an object: no history for it)
+        if (tier != "quick" or b == "live") and n and FULL_AS_DICT[0] and not m.startswith("iter:"):
+            hk = ks if tier != "quick" else sorted(set([k for k in ks if k < 2 or k == n - 1 or k % 9 == 4]))
+            for k in hk:
+                for m2, o2 in ((m, o), FULL_AS_DICT[0]):
+                    if tier == "quick" and m2 is not m and k != 0:
+                        continue
+                    c = {"kind": "one", "cls": "H2", "base": b, "m": m, "v": None,
+                         "d": [[k, "EACCES" if k % 2 == 0 else "EPERM"]], "then": [m2]}
+                    if o:
+                        c["ord"] = o
+                    if m2.startswith("as_dict:") and o2:
+                        c["ord2"] = o2
                     cases.append(c)
         if tier == "thorough":
             for i in range(n):
@@ -259,8 +288,14 @@ def impl_run(case, coq, env):
         if real != case["ord"]:
             return T("Skip", "as_dict attribute order differs from the one the case was generated for")
     deny = {int(k): getattr(E, e) for k, e in case.get("d", [])}
+    for m2 in case.get("then") or []:
+        if m2.startswith("as_dict:") and case.get("ord2"):
+            if list(psutil._as_dict_attrnames) != case["ord2"]:
+                return T("Skip", "as_dict attribute order differs from the one the case was generated for")
     r = W.run_case(env["work"], case["base"], m, vanish=case.get("v"), deny=deny, sticky=True,
-                   ovanish={p: k for p, k in case.get("ov", [])}, half=bool(case.get("h")))
+                   ovanish={p: k for p, k in case.get("ov", [])}, half=bool(case.get("h")), then=case.get("then"))
+    if case.get("then"):
+        return [[_canon_out(o) for o in r["outs"]], [T("%s|%s" % (k, p)) for k, p in r["log"]], bool(r["gone"]), []]
     bad_after = []
     for m2, o2 in sorted(r.get("after", {}).items()):
         if o2[0] == "exc" and o2[1] == "NoSuchProcess" and o2[2] == W.PID:
@@ -276,6 +311,16 @@ def impl_run(case, coq, env):
 def oracle(case, impl):
     """None, or the reason why this outcome breaks the property."""
     out, log, gone, bad_after = impl
+    if case.get("then"):
+        # a history on one object: the oracle applies to EVERY call; the later calls run without a fault
+        why = oracle({k: v for k, v in case.items() if k != "then"}, [out[0], log, gone, []])
+        if why:
+            return "1st call: " + why
+        for i, (m2, o2) in enumerate(zip(case["then"], out[1:])):
+            why = oracle({"base": case["base"], "m": m2, "d": [], "v": None}, [o2, log, gone, []])
+            if why:
+                return "call %d (%s, no fault) on the same object %s" % (i + 2, m2.split(":")[0], why)
+        return None
     m = case["m"]
     denied = bool(case.get("d"))
     if out["t"] == "BadShape":
@@ -321,7 +366,7 @@ def judge(case, coq, impl):
         return Verdict("violation", "%s.%s() [%s] %s" % (case["base"], case["m"], _sched(case), why))
     model = coq.get("model") if isinstance(coq, dict) else None
     if model is not None and impl != model:
-        what = "outcome" if impl[0] != model[0] else ("access sequence" if impl[1] != model[1] else "gone flag / later queries")
+        what = "outcome(s)" if impl[0] != model[0] else ("access sequence" if impl[1] != model[1] else "gone flag / later queries")
         return Verdict("corr", "%s.%s() [%s]: %s differs from the access-script model" % (case["base"], case["m"], _sched(case), what))
     if model is None and case["m"] in KMAX and case["cls"] == "dry" and len(impl[1]) > KMAX[case["m"]]:
         return Verdict("corr", "%s performs %d accesses, enumeration bound is %d" % (case["m"], len(impl[1]), KMAX[case["m"]]))
@@ -343,6 +388,8 @@ def nontrivial(case, coq, impl):
     if not isinstance(impl, list):
         return False
     n = len(impl[1])
+    if case.get("then"):
+        return True
     ks = [k for k, _ in case.get("d") or []] + ([case["v"]] if case.get("v") is not None else []) \
         + [k for _, k in case.get("ov") or []]
     return bool(ks) and min(ks) < n
